@@ -1392,9 +1392,13 @@ class Store:
                 deep_merge_check(processes, daughter.get('steps', {}))
             else:
                 # if no processes provided, copy the mother's processes
+                # (get_processes() does not include the steps)
                 mother_processes = self.get_path(mother_path).get_processes()
                 processes = copy.deepcopy(mother_processes)
                 processes = processes or {}
+                mother_steps = self.get_path(mother_path).get_steps()
+                deep_merge_check(
+                    processes, copy.deepcopy(mother_steps) or {})
                 # The mother's processes may have an update in flight;
                 # their copies start with no command pending.
                 for _, process in dict_to_paths((), processes):
